@@ -25,6 +25,17 @@ def _worker(prop, cfg):
     mod = importlib.import_module(f"props.{prop}")
     kind = cfg.get("engine", "symx")
     t0 = time.time()
+    import signal
+
+    class _HardTimeout(BaseException):
+        pass
+
+    def _alarm(signum, frame):
+        raise _HardTimeout()
+
+    hard = int(cfg.get("hard_timeout_s", 420 if cfg.get("tier") == "quick" else 3600))
+    signal.signal(signal.SIGALRM, _alarm)
+    signal.alarm(hard)
     try:
         if kind == "symx":
             from symx.run import run_config
@@ -34,8 +45,11 @@ def _worker(prop, cfg):
         else:
             fn = getattr(mod, cfg["fn"])
             r = fn(cfg)
+    except _HardTimeout:
+        r = {"cfg": cfg["key"], "engine_errors": [], "violations": [], "open": [{"obligation": "(configuration)", "status": "open", "detail": f"hard time limit of {hard}s reached - configuration not decided", "witnessed": False}], "paths": 0, "paths_incomplete": 1, "obligations": 1, "discharged": 0, "notes": [f"hard time limit {hard}s"]}
     except BaseException as e:  # noqa
         r = {"cfg": cfg["key"], "engine_errors": [f"worker crashed: {type(e).__name__}: {e} | {traceback.format_exc()[-600:]}"], "violations": [], "open": [], "paths": 0, "obligations": 0, "discharged": 0}
+    signal.alarm(0)
     r["cfg"] = cfg["key"]
     r["fn"] = cfg["fn"]
     r.setdefault("wall_s", round(time.time() - t0, 3))
